@@ -1,6 +1,7 @@
 package hx
 
 import (
+	"context"
 	"fmt"
 	"math"
 	"sort"
@@ -94,9 +95,44 @@ func KeyIteration(pat string, ktype, count int) *Step {
 			return fmt.Sprintf("key iteration pat=%q type=%d count=%d returned {%s}, the matching live keys are {%s}",
 				pat, ktype, count, multiset(it.items), multiset(want))
 		}
-		return ""
+		return abortedIteration(x, "key", len(it.items), func(r R) (func() bool, func() error) {
+			sc := r.Key().Scanner(pat, redka.TypeID(ktype), count)
+			return sc.Scan, sc.Err
+		})
 	}
 	return st
+}
+
+// abortedIteration runs the iterator object inside a read-only transaction whose context is
+// cancelled after the first element: the iteration either still delivers everything (the pages were
+// already fetched) or ends early - and then it must say so through Err(); an incomplete iteration
+// that looks like a finished one is ambiguous.
+func abortedIteration(x *Exec, what string, full int, mk func(r R) (func() bool, func() error)) string {
+	if full < 2 {
+		return ""
+	}
+	ctx, cancel := context.WithCancel(context.Background())
+	defer cancel()
+	got := 0
+	var scanErr error
+	_ = x.DB.ViewContext(ctx, func(tx *redka.Tx) error {
+		next, errf := mk(verifhook.Tx(tx))
+		for next() {
+			got++
+			if got == 1 {
+				cancel()
+			}
+			if got > full+5 {
+				break
+			}
+		}
+		scanErr = errf()
+		return nil
+	})
+	if got < full && scanErr == nil {
+		return fmt.Sprintf("%s iteration whose transaction was cancelled after the first element delivered %d of %d elements and reported no error: an aborted iteration looks like a finished one", what, got, full)
+	}
+	return ""
 }
 
 // CollIteration scans a set ('E'), hash ('H') or sorted set ('Z').
@@ -209,7 +245,19 @@ func CollIteration(fam byte, key, pat string, count int) *Step {
 			return fmt.Sprintf("%s iteration key=%q count=%d returned {%s}, the collection holds {%s}",
 				name, key, count, multiset(it.items), multiset(all))
 		}
-		return ""
+		return abortedIteration(x, name, len(it.items), func(r R) (func() bool, func() error) {
+			switch fam {
+			case 'E':
+				sc := r.Set().Scanner(key, pat, count)
+				return sc.Scan, sc.Err
+			case 'H':
+				sc := r.Hash().Scanner(key, pat, count)
+				return sc.Scan, sc.Err
+			default:
+				sc := r.ZSet().Scanner(key, pat, count)
+				return sc.Scan, sc.Err
+			}
+		})
 	}
 	return st
 }
